@@ -9,7 +9,7 @@
 //!   * after Clear, every resource of A equals D;
 //!   * sending the SDK defaults to D changes nothing.
 use crate::common::*;
-use crate::fw_c01::T0;
+use crate::fw_c01::{Accept, T0};
 use crate::fwc::*;
 use autd3::prelude::*;
 
@@ -50,6 +50,27 @@ fn alphabet(thorough: bool) -> Vec<Spec> {
         Spec::SwapMod(1, (0xFF, 0)),
         Spec::SwapGain(1, (0xFF, 0)),
         Spec::Sync,
+        // ---- coverage review C02
+        // gap 1: transitions that stay pending while unrelated probes arrive (SysTime far enough in the future to
+        // outlive the clock advances of a case, a GPIO pin that `gpioin 5` never raises, Ext)
+        Spec::Mod { seg: 1, tr: Some((0x01, T0 + 700_000_000)), rep: 0, div: 11, n: 4, seed: 26 },
+        Spec::Foci { n: 2, seg: 1, tr: Some((0x02, 1)), rep: 2, div: 40, ss: 21761, size: 3, seed: 27 },
+        Spec::Mod { seg: 1, tr: Some((0xF0, 0)), rep: 0xFFFF, div: 5000, n: 6, seed: 28 },
+        Spec::SwapMod(1, (0x01, T0 + 900_000_000)),
+        // gap 2: clearing a flag that is set
+        Spec::Fan(false),
+        Spec::Reads(false),
+        Spec::CpuGpio(0x20),
+        Spec::CpuGpio(0),
+        // gaps 3, 4: finite loops of every kind, with and without a transition; other divisions / sound speed, so that
+        // "the last datagram wins" is visible for those registers too
+        Spec::GainStm { mode: 1, seg: 1, tr: Some((0x00, 0)), rep: 2, div: 0xFFFF, size: 3, seed: 29 },
+        Spec::Mod { seg: 1, tr: None, rep: 3, div: 5000, n: 255, seed: 30 },
+        Spec::Foci { n: 4, seg: 0, tr: None, rep: 1, div: 0xFFFF, ss: 21761, size: 3, seed: 31 },
+        Spec::GainStm { mode: 0, seg: 0, tr: None, rep: 0, div: 40, size: 2, seed: 32 },
+        // gap 5: the 16-byte STM swaps in the default tier
+        Spec::SwapFoci(1, (0xFF, 0)),
+        Spec::SwapGainStm(0, (0xFF, 0)),
     ];
     if thorough {
         v.extend([
@@ -58,8 +79,8 @@ fn alphabet(thorough: bool) -> Vec<Spec> {
             m(1, 32768, None, 0xFFFF, 23),
             Spec::GainStm { mode: 1, seg: 0, tr: None, rep: 0xFFFF, div: 100, size: 1024, seed: 24 },
             Spec::Foci { n: 1, seg: 1, tr: None, rep: 0xFFFF, div: 100, ss: 21760, size: 9000, seed: 25 },
-            Spec::SwapFoci(1, (0xFF, 0)),
-            Spec::SwapGainStm(0, (0xFF, 0)),
+            Spec::SwapFoci(0, (0x00, 0)),
+            Spec::SwapGainStm(1, (0x02, 2)),
             Spec::Clear,
         ]);
     }
@@ -101,7 +122,13 @@ impl Silent {
 fn snapshot(w: &World, with_dyn: bool) -> Vec<Vec<String>> {
     w.cpus
         .iter()
-        .map(|c| ALL_RES.iter().map(|r| if with_dyn { format!("{}|{}", res_obs(c, *r), res_dyn(c, *r)) } else { res_obs(c, *r) }).collect())
+        .map(|c| {
+            ALL_RES
+                .iter()
+                // a read-back accessor that panics is an observation ("P…"), not the end of the stream
+                .map(|r| guarded(|| if with_dyn { format!("{}|{}", res_obs(c, *r), res_dyn(c, *r)) } else { res_obs(c, *r) }).unwrap_or_else(|m| format!("P:{}", panic_key(&m))))
+                .collect()
+        })
         .collect()
 }
 
@@ -112,13 +139,32 @@ pub fn run_case(out: &mut Out, ndev: usize, history: &[Step], probe: &Spec, tag:
     a.send(&Spec::Clear);
     b.apply(&Step::Send(Spec::Clear));
     c.apply(&Step::Send(Spec::Clear));
+    // every datagram of world A carries an expectation (accepted / refused) computed from the datagrams sent so far
+    // alone (`fw_c01::Accept`: transition rules, strict-silencer guard, SysTime margin, what a segment holds):
+    // what a device accepts depends on the last datagram per resource, not on how it got there
+    let mut exp = Accept::power_on();
+    let mut acceptance: Option<String> = None;
+    let mut judge = |exp: &mut Accept, sp: &Spec, now: u64, ans: &str, acceptance: &mut Option<String>| {
+        let e = exp.step(sp, now);
+        if ans != "panic" && ans != "dead" && ans.starts_with("R=ok") != e.is_ok() && acceptance.is_none() {
+            *acceptance = Some(format!("`{}` answered {} but the datagrams sent so far say it {}", sp.text(), ans.split(' ').next().unwrap_or(""), match e { Ok(()) => "must be accepted".to_string(), Err(w) => format!("must be refused ({w})") }));
+        }
+    };
     for st in history {
         match st {
             Step::Send(s) => {
-                a.send(s);
+                let now = a.w.t;
+                let ans = a.send(s);
+                judge(&mut exp, s, now, &ans, &mut acceptance);
             }
             Step::Pair(x, y) => {
-                a.pair(x, y);
+                // the real tuple type; the expectation: both members in order (only judged when both must be accepted)
+                let now = a.w.t;
+                let ans = a.pair_real(x, y);
+                let (e1, e2) = (exp.step(x, now), exp.step(y, now));
+                if e1.is_ok() && e2.is_ok() && ans != "panic" && !ans.starts_with("R=ok") && acceptance.is_none() {
+                    acceptance = Some(format!("tuple `({} , {})` answered {} but both members must be accepted", x.text(), y.text(), ans.split(' ').next().unwrap_or("")));
+                }
             }
             Step::Clk(d) => {
                 let t = a.w.t + d;
@@ -135,8 +181,15 @@ pub fn run_case(out: &mut Out, ndev: usize, history: &[Step], probe: &Spec, tag:
         out.count("not-evaluable:panic");
         return;
     }
+    let now = a.w.t;
     let ra = a.send(probe);
+    judge(&mut exp, probe, now, &ra, &mut acceptance);
+    let mut exp_c = Accept::power_on();
+    let ec = exp_c.step(probe, c.w.t);
     let rc = c.apply(&Step::Send(probe.clone()));
+    if rc != "panic" && (rc == "ok") != ec.is_ok() && acceptance.is_none() {
+        acceptance = Some(format!("on a fresh device `{}` answered {rc} but it {}", probe.text(), match ec { Ok(()) => "must be accepted".to_string(), Err(w) => format!("must be refused ({w})") }));
+    }
     let accepted = ra.starts_with("R=ok");
     let mut verdict: Option<String> = None;
     if ra == "panic" {
@@ -190,18 +243,38 @@ pub fn run_case(out: &mut Out, ndev: usize, history: &[Step], probe: &Spec, tag:
             }
         }
     }
-    // (2b) hidden state of the addressed resource shows in what a follow-up request is allowed to do: after a
-    // Gain to a segment, SwapSegment::Gain to that segment is acceptable on a fresh device; it must be after any history
+    // (2b) hidden state of the addressed resource (the CPU's copies of mode / cycle / loop count of a segment) shows in
+    // what a follow-up swap to that segment is allowed to do: after an accepted write WITHOUT transition, the matching
+    // SwapSegment must be accepted exactly when the datagrams sent say so — on this history and on a fresh device
+    // (review C02 gap 5: Gain, Modulation, FociSTM, GainSTM; Immediate for an infinite loop, SyncIdx for a finite one)
     if verdict.is_none() && accepted && rc == "ok" {
-        if let Spec::Gain { seg, .. } = probe {
-            let follow = Spec::SwapGain(*seg, (0xFF, 0));
+        let follow = match probe {
+            Spec::Gain { seg, tr: None, .. } => Some(Spec::SwapGain(*seg, (0xFF, 0))),
+            Spec::Gain { seg, .. } => Some(Spec::SwapGain(*seg, (0xFF, 0))),
+            Spec::Mod { seg, tr: None, rep, .. } => Some(Spec::SwapMod(*seg, if *rep == 0xFFFF { (0xFF, 0) } else { (0x00, 0) })),
+            Spec::Foci { seg, tr: None, rep, .. } => Some(Spec::SwapFoci(*seg, if *rep == 0xFFFF { (0xFF, 0) } else { (0x00, 0) })),
+            Spec::GainStm { seg, tr: None, rep, .. } => Some(Spec::SwapGainStm(*seg, if *rep == 0xFFFF { (0xFF, 0) } else { (0x00, 0) })),
+            _ => None,
+        };
+        if let Some(follow) = follow {
+            let now = a.w.t;
             let fa = a.send(&follow);
+            let ea = exp.step(&follow, now);
+            let ecf = exp_c.step(&follow, c.w.t);
             let fc = c.apply(&Step::Send(follow.clone()));
-            if fa != "panic" && fc != "panic" && fa.starts_with("R=ok") != (fc == "ok") {
+            a.out.count(&format!("follow-up:{}:{}", follow.kind(), if fa.starts_with("R=ok") { "accepted" } else { "refused" }));
+            if fa != "panic" && fa.starts_with("R=ok") != ea.is_ok() {
                 verdict = Some(format!(
-                    "after `gain` to segment {seg}, `swapgain {seg}` answered {} after this history but {} on a fresh device",
-                    fa.split(' ').next().unwrap_or(""), fc
+                    "after `{}`, the follow-up `{}` answered {} after this history but the datagrams sent say it {}",
+                    probe.text(), follow.text(), fa.split(' ').next().unwrap_or(""), match ea { Ok(()) => "must be accepted".to_string(), Err(w) => format!("must be refused ({w})") }
                 ));
+            } else if fc != "panic" && (fc == "ok") != ecf.is_ok() {
+                verdict = Some(format!("after `{}` on a fresh device, the follow-up `{}` answered {fc} but it {}", probe.text(), follow.text(), match ecf { Ok(()) => "must be accepted".to_string(), Err(w) => format!("must be refused ({w})") }));
+            }
+            if fa == "panic" || fc == "panic" {
+                out.case(None);
+                out.count("not-evaluable:panic");
+                return;
             }
         }
     }
@@ -217,13 +290,24 @@ pub fn run_case(out: &mut Out, ndev: usize, history: &[Step], probe: &Spec, tag:
             d0.apply(&Step::Clk(a.w.t - T0));
             let t = a.w.t;
             a.clk(t); // make "now playing" comparable: both worlds updated at the same time
-            let (sa, sd) = (snapshot(&a.w, true), snapshot(&d0.w, true));
-            'o3: for d in 0..ndev {
-                for (k, r) in ALL_RES.iter().enumerate() {
-                    // clock synchronisation is not configuration: Clear does not undo Synchronize
-                    if *r != Res::Sync && sa[d][k] != sd[d][k] {
-                        verdict = Some(format!("dev {d}: after Clear resource {r:?} is `{}`, power-on state is `{}`", sa[d][k], sd[d][k]));
-                        break 'o3;
+            // … now, and one second later (a transition request that was pending when Clear arrived must be gone)
+            'o3: for adv in [0u64, 1_000_000_000] {
+                if adv > 0 {
+                    let t = a.w.t + adv;
+                    a.clk(t);
+                    d0.apply(&Step::Clk(adv));
+                    if a.dead || d0.dead {
+                        break;
+                    }
+                }
+                let (sa, sd) = (snapshot(&a.w, true), snapshot(&d0.w, true));
+                for d in 0..ndev {
+                    for (k, r) in ALL_RES.iter().enumerate() {
+                        // clock synchronisation is not configuration: Clear does not undo Synchronize
+                        if *r != Res::Sync && sa[d][k] != sd[d][k] {
+                            verdict = Some(format!("dev {d}: after Clear (+{adv} ns) resource {r:?} is `{}`, power-on state is `{}`", sa[d][k], sd[d][k]));
+                            break 'o3;
+                        }
                     }
                 }
             }
@@ -234,8 +318,66 @@ pub fn run_case(out: &mut Out, ndev: usize, history: &[Step], probe: &Spec, tag:
     out.case(if accepted { Some(sig) } else { None });
     out.count(&format!("probe:{}", probe.kind()));
     out.count(&format!("history-depth:{}", history.len()));
+    if let Some(t) = match probe { Spec::Mod { tr, .. } | Spec::Foci { tr, .. } | Spec::GainStm { tr, .. } => *tr, Spec::SwapMod(_, t) | Spec::SwapFoci(_, t) | Spec::SwapGainStm(_, t) => Some(*t), _ => None } {
+        out.count(&format!("probe-transition:{:#04x}", t.0));
+    }
+    if let Some(what) = acceptance {
+        out.violation(format!("C02:acceptance:{}:after[{}]:{tag}", probe.text(), hist_desc.join(",")), what, log.clone());
+    }
     if let Some(what) = verdict {
         out.violation(format!("{key}:{tag}"), what, log);
+    }
+}
+
+/// review C02 gap 6: the firmware_version() query sequence in a history. While a query is outstanding the state byte is
+/// not refreshed; the closing query must put state reading back exactly as it was. World A: Reads(b), the six queries
+/// with a clock tick inside, clock; silent world X: Reads(b), clock. Compared: every resource and the rx data byte.
+fn firminfo_case(out: &mut Out, ndev: usize, reads: bool, probe: &Spec) {
+    let mut a = Session::new(out, ndev, T0);
+    let mut x = Silent::new(ndev);
+    a.send(&Spec::Clear);
+    x.apply(&Step::Send(Spec::Clear));
+    a.send(&Spec::Reads(reads));
+    x.apply(&Step::Send(Spec::Reads(reads)));
+    for ty in 1..=5u8 {
+        a.send(&Spec::FirmInfo(ty));
+        if ty == 3 {
+            let t = a.w.t + 1_000_000;
+            a.clk(t);
+            x.apply(&Step::Clk(1_000_000));
+        }
+    }
+    a.send(&Spec::FirmInfo(6));
+    let ra = a.send(probe);
+    let rx = x.apply(&Step::Send(probe.clone()));
+    let t = a.w.t + 2_000_000;
+    a.clk(t);
+    x.apply(&Step::Clk(2_000_000));
+    let log = a.log.clone();
+    let mut verdict = None;
+    if a.dead || x.dead {
+        out.case(None);
+        out.count("not-evaluable:panic");
+        return;
+    }
+    if ra.starts_with("R=ok") != (rx == "ok") {
+        verdict = Some(format!("`{}` answered {} after a firmware_version sequence, {rx} without", probe.text(), ra.split(' ').next().unwrap_or("")));
+    }
+    let (sa, sx) = (snapshot(&a.w, true), snapshot(&x.w, true));
+    for d in 0..ndev {
+        if verdict.is_none() && sa[d] != sx[d] {
+            let k = (0..ALL_RES.len()).find(|&k| sa[d][k] != sx[d][k]).unwrap();
+            verdict = Some(format!("dev {d}: resource {:?} is `{}` after a firmware_version sequence, `{}` without", ALL_RES[k], sa[d][k], sx[d][k]));
+        }
+        let (da, dx) = (a.w.cpus[d].rx().data(), x.w.cpus[d].rx().data());
+        if verdict.is_none() && da != dx {
+            verdict = Some(format!("dev {d}: the state byte is {da:#04x} after a firmware_version sequence, {dx:#04x} without (state reading {})", if reads { "enabled" } else { "disabled" }));
+        }
+    }
+    out.case(Some(fnv64(format!("firminfo|{ndev}|{reads}|{}", probe.text()).as_bytes())));
+    out.count("firmware-version-sequence-in-history");
+    if let Some(what) = verdict {
+        out.violation(format!("C02:firminfo-sequence:reads{}:{}", reads as u8, probe.text()), what, log);
     }
 }
 
@@ -382,6 +524,12 @@ pub fn run(args: &Args) {
             }
         }
     }
+    // ---- the firmware_version() sequence as a history (gap 6)
+    for (j, p) in alpha.iter().enumerate() {
+        if thorough || j % 3 == 0 || matches!(p, Spec::Reads(_) | Spec::Clear | Spec::Fan(_)) {
+            firminfo_case(&mut out, 1 + j % 2, j % 4 != 1, p);
+        }
+    }
     // ---- every page of the STM memory: a FociSTM of maximal length for each N (its frames end on different foci
     // counts for each N, so every way a frame can meet a 4096-foci page boundary occurs) written over a segment
     // whose every page holds another STM's data; a shorter one in thorough mode
@@ -420,6 +568,6 @@ pub fn run(args: &Args) {
     out.sample("reset 1 … / send clear / send mod 1 0:0 0 10 4 2 / clk +3ms / send debug 0 0 0 0 / clk +1.5ms / clk +100ms / send clear".into());
     out.finish(
         "fw_c02",
-        "a case = Clear + history + probe + clock advances + Clear on world A, mirrored by silent worlds B (no probe), C (fresh + probe), D (power-on); non-trivial = the probe was accepted; distinct by (history kinds, probe text)",
+        "a case = Clear + history + probe (+ follow-up swap) + clock advances + Clear + clock on world A, mirrored by silent worlds B (no probe), C (fresh + probe), D (power-on); non-trivial = the probe was accepted; distinct by (history kinds, probe text). Every datagram of world A carries an acceptance expectation computed from the datagrams alone (violation C02:acceptance:…). Invisible to the model (same grammar): pending SysTime / GPIO / Ext transitions, flags cleared after being set, finite loops of every kind, other divisions and sound speed, tuples through the real tuple type, the firmware_version sequence in a history",
     );
 }
